@@ -44,6 +44,7 @@ class Report(object):
         self.rule = ''
         self.samples = []
         self.violations = []     # dicts: key, what, replay (data)
+        self.viol_counts = {}
         self.corr_breaks = []    # dicts: relation, input, model, impl
         self.coverage = {}
         self.assumptions = []
@@ -55,7 +56,8 @@ class Report(object):
             self.samples.append(x)
 
     def violation(self, key, what, replay):
-        if len(self.violations) < 50:
+        self.viol_counts[key] = self.viol_counts.get(key, 0) + 1
+        if self.viol_counts[key] <= 5:
             self.violations.append({'key': key, 'what': what, 'replay': replay})
 
     def corr_break(self, relation, inp, model, impl):
@@ -301,6 +303,14 @@ def main(argv):
         obl = o2
         try:
             mod.run(ctx, rep)
+            import algebra
+            if getattr(mod, 'PURITY_IS_VIOLATION', False):
+                for pb in algebra.PURITY_BREAKS:
+                    rep.violation('%s:input-mutated' % pid, '%s: %s' % (pb['case'], pb['what']),
+                                  dict(pb['data'], kind='purity'))
+                del algebra.PURITY_BREAKS[:]
+            else:
+                algebra.report_purity(rep)
         finally:
             if hasattr(mod, 'cleanup'):
                 mod.cleanup(ctx)
